@@ -153,4 +153,105 @@ theorem c18_concat (env : C01.TEnv) (hwf : C01.WF env = true) (h : Heap)
     rw [this]
     cases C01.walk env h q 0 v <;> rfl
 
+theorem pickleObj_valid {L : Type} (F : Facts) (hwf : WF F = true) (x : C18.Obj L)
+    (hv : validObj x = true) : pickleObj F x = some x := by
+  cases x with
+  | tobj r s =>
+    simp only [validObj, Bool.and_eq_true, List.contains_eq_mem, decide_eq_true_eq] at hv
+    simp only [pickleObj, c18_pickle F hwf r hv.1 s, Option.map_some]
+  | pobj r s =>
+    simp only [validObj, Bool.and_eq_true, beq_iff_eq] at hv
+    simp only [pickleObj, c18_pickle F hwf r (by rw [hv.1]; simp) s, Option.map_some]
+
+/-- **Checker theorem** — the form in which the round-trip property is also evaluated
+    on the implementation's observation by the correspondence driver: for every valid
+    object the model's own observation (text, eval(text), repr of that, pickle round
+    trip) satisfies the checker. -/
+theorem c18_model_checks {L : Type} [BEq (Step L)] [ReflBEq (Step L)] (F : Facts)
+    (hwf : WF F = true) (render : List (Tok L) → String) (x : C18.Obj L)
+    (hv : validObj x = true) : checkRepr x (observeRepr F render x) = true := by
+  have hp := pickleObj_valid F hwf x hv
+  cases x with
+  | tobj r s =>
+    simp only [validObj, Bool.and_eq_true] at hv
+    obtain ⟨h1, h2⟩ := c18_roundtrip_t F hwf r s hv.2
+    simp only [reprObj] at h2
+    simp [checkRepr, observeRepr, reprObj, h1, h2, hp, sameObj, sameOps, Obj.root, Obj.steps]
+  | pobj r s =>
+    simp only [validObj, Bool.and_eq_true, beq_iff_eq] at hv
+    obtain ⟨hr, hvs⟩ := hv
+    subst hr
+    obtain ⟨y, h1, h2, h3, h4⟩ := c18_roundtrip_path F hwf s hvs
+    have h4' : reprObj F.fmt y = reprObj F.fmt (.pobj "T" s) := h4
+    have h2' : y.root = (Obj.pobj "T" s : C18.Obj L).root := h2
+    have h3' : y.steps = normSteps (Obj.pobj "T" s : C18.Obj L).steps := h3
+    have h1' : parseObj (reprObj F.fmt (.pobj "T" s)) = some y := h1
+    simp only [checkRepr, observeRepr, h1', hp, Option.map_some, h4', h2', h3']
+    simp [sameObj, sameOps]
+
+end Glom.Props.C18
+
+/-! ### non-vacuity: concrete inputs meet every hypothesis; counter-examples without them -/
+
+namespace Glom.C18.Examples
+open Glom Glom.C18 Glom.Props.C18
+
+/-- `T.a[1,].__('x')(1, S.q, z=2, b=T).__star__()[:2]` -/
+def exT : List (Step String) :=
+  [.attr ['a'], .items [.one (.lit "1")], .attr ['_', '_', 'x'],
+   .call [.lit "1", .t "S" [.attr ['q']]] [("z", .lit "2"), ("b", .t "T" [])],
+   .star, .item (.slice none (some (.lit "2")) none)]
+
+example : validT exT = true := by
+  simp [exT, validT, validStep, validItem, validArg, Step.isSeg]
+
+example : validObj (.tobj "S" exT) = true := by
+  simp [exT, validObj, validT, validStep, validItem, validArg, Step.isSeg]
+
+/-- `Path('a', T.b.__star__(), 2)` -/
+def exP : List (Step String) := [.seg "'a'", .attr ['b'], .star, .seg "2"]
+
+example : validP exP = true := by simp [exP, validP, validStep]
+
+/-- the hypotheses of `c18_concat` are those of C01 -/
+example : C01.WF (C01.genEnv []) = true ∧
+    C01.wfSteps [("P", .str "a"), ("[", .int 1)] = true ∧ C01.wfSteps [(".", .str "b")] = true := by
+  decide
+
+/-- the formatter of the tree before commit 0224102 -/
+def F0 : FmtFacts := ⟨false, false, false⟩
+
+end Glom.C18.Examples
+
+namespace Glom.Props.C18
+open Glom Glom.C18 Glom.C18.Examples
+
+/-- Without `WF` (the switches of `_format_t` off, as before commit 0224102) the round trip
+    fails: `T[(v,)]` is printed `T[v]` and read back as the index `v`; `T[()]` is printed
+    `T[]`, which is not an expression; `T.__('x')` is printed `T.__x`, which T refuses. -/
+theorem c18_wf_counterexample (v : String) :
+    parseObj (fmtT F0 "T" [.items [.one (.lit v)]]) = some (.tobj "T" [.item (.one (.lit v))]) ∧
+    parseObj (fmtT F0 "T" [(.items [] : Step String)]) = none ∧
+    parseObj (fmtT F0 "T" [(.attr ['_', '_', 'x'] : Step String)]) = none := by
+  refine ⟨?_, ?_, ?_⟩
+  · simp [fmtT, fmtSteps, assembleT, Step.isSeg, fmtStep, fmtItem, fmtArg, F0, joinSep, parseObj,
+      parseSteps_br, parseIndex_def, isUnitTok, splitOn, Tok.isComma, parseItem_def, Tok.isColon,
+      parseArg_lit, consOpt, parseSteps_nil]
+  · simp [fmtT, fmtSteps, assembleT, Step.isSeg, fmtStep, F0, joinSep, parseObj, parseSteps_br,
+      parseIndex_def, isUnitTok, splitOn, parseItem_def, consOpt, parseArg]
+  · simp [fmtT, fmtSteps, assembleT, Step.isSeg, fmtStep, F0, parseObj]
+    rw [parseSteps]
+    all_goals simp [isDunder, dunder]
+
+/-- Without the hypothesis that a Path is rooted at `T`: `Path.__repr__` prints the steps
+    only, so the text of `Path(S.a, 'b')` is `Path(T.a, 'b')` and is read back with root
+    `T` — a different object, evaluated against the target instead of the scope.
+    Real glom: `eval(repr(Path(S.a, 'b'))) != Path(S.a, 'b')` (known finding
+    `path_repr_drops_root`). -/
+theorem c18_path_root_counterexample {L : Type} (F : Facts) (hwf : WF F = true)
+    (steps : List (Step L)) (hv : validP steps = true) :
+    ∃ y, parseObj (reprObj F.fmt (.pobj "S" steps)) = some y ∧ y.root = "T" :=
+  let ⟨y, h1, h2, _, _⟩ := c18_roundtrip_path F hwf steps hv
+  ⟨y, h1, h2⟩
+
 end Glom.Props.C18
